@@ -8,6 +8,7 @@ C04 driver.  Case lines (`<ctx>` = `<type> <protocol> <direction> <registry> <pa
                           Encode/Decode with the value extracted from the DECODED Go packet.
                           verdict: for a well-formed value the implementation must give the value back, leave
                           no bytes and re-encode identically
+  rtx <ctx> <val>         like `rt` for very large values: the model side is given by theorem `packet_roundtrip`
   gort <ctx>              no model (all registered types, also those without a schema): the Go-side
                           encode→decode→re-encode→decode check; verdict on the implementation's summary
 -/
@@ -30,6 +31,10 @@ def step (c : Case) : String × String :=
         if op = "enc" then (stepEnc ps v, "-")
         else if op = "rt" then
           (stepRt ps v, if ps.wfB v then (if c.impl = wantRt v then "ok" else "viol:roundtrip-" ++ name) else "-")
+        else if op = "rtx" then
+          -- large values: the model's answer is taken from theorem `packet_roundtrip` (a well-formed value comes back,
+          -- nothing is left, re-encoding is identical) instead of running the list-based model decoder
+          if ps.wfB v then (wantRt v, if c.impl = wantRt v then "ok" else "viol:roundtrip-" ++ name) else (c.impl, "-")
         else ("bad-op", "-")
       | none, _ => ("no-schema", "-")
       | _, none => ("bad-val", "-")
